@@ -166,6 +166,7 @@ def handle : Handler
               match dictPopitem d with
               | .ok (kv, d') => .ok (outs ++ [hexStr kv.1 ++ "=" ++ hexStr kv.2], d')
               | .error e => .error e
+            else if o.1 == 'u' then .ok (outs, dictUpdate d [(o.2.1, o.2.2), (['n', 'e', 'w'], o.2.2), (o.2.1, ['z'])])
             else if o.1 == 'o' then .ok (outs, dictOfPairs (d ++ [(o.2.1, ['1']), (o.2.1, ['2'])]))
             else
               match dictGetItem d o.2.1 with
